@@ -269,3 +269,34 @@ pub fn enc_header_short_sink() {
     }
     vcover!(opt == 1, "size_written");
 }
+
+
+//@ harness props=C12,C04 tier=quick unwind=12 unwindset=encode_literal:10,finish:32,write_low:6 mem_gb=8 timeout=900 native=no
+//@ bound: Encoder::process on a source holding 2 symbolic bytes whose k-th read call fails (k symbolic in 0..=2), decisions recorded instead of encoded: the failure is returned, never taken for the end of the input
+#[cfg_attr(kani, kani::proof)]
+#[cfg_attr(kani, kani::stub(std::fmt::format, crate::verif_common::stub_format))]
+#[cfg_attr(kani, kani::stub(std::io::Error::is_interrupted, crate::verif_common::stub_not_interrupted))]
+#[cfg_attr(kani, kani::stub(crate::encode::rangecoder::RangeEncoder::encode_bit, crate::encode::rangecoder::verif_h::recording_encode_bit))]
+pub fn enc_process_source_fails() {
+    let mut t = Tape::<16>::new();
+    let data: [u8; 2] = t.bytes::<2>();
+    let k = (t.u8() % 3) as usize;
+    let opts = crate::compress::Options { unpacked_size: UnpackedSize::WriteToHeader(None) };
+    let mut sink = BitLogSink::new(0);
+    let r = Encoder::from_stream(&mut sink, &opts);
+    match r {
+        Ok(enc) => {
+            let rd = FailReader::<2>::new(data, 2, k);
+            let r2 = enc.process(rd);
+            let ok = r2.is_ok();
+            forget(r2);
+            vassert!(!ok, "encoder: a read failure of the source is reported as an error (the stream is not ended as if the input were complete)");
+            vassert!(sink.nrec == k * 9, "encoder: nothing is encoded after the failing read (no end marker for a failed source)");
+            vcover!(k == 2, "fails_at_end_probe");
+        }
+        Err(e) => {
+            forget(e);
+            vassert!(false, "encoder: header goes to a healthy sink");
+        }
+    }
+}
